@@ -96,9 +96,11 @@ Record world : Type := mkW {
   w_clock : nat;
   w_st : tmodel -> tstate;                       (* model.state *)
   w_timers : list timer;                         (* every Timer object created so far, in creation order *)
-  w_runner : tstate -> tmodel -> option nat      (* state.runner[id(model)] : position in w_timers *)
+  w_runner : tstate -> tmodel -> option nat;     (* state.runner[id(model)] : position in w_timers *)
+  w_tout : tstate -> nat                         (* state.timeout, an attribute that can be reassigned at run time *)
 }.
-Definition init_world (s0 : tstate) : world := mkW 0 (fun _ => s0) [] (fun _ _ => None).
+Definition init_world (c : tcfg) (s0 : tstate) : world :=
+  mkW 0 (fun _ => s0) [] (fun _ _ => None) (timeout_of c).
 
 Definition upd {A} (f : nat -> A) (k : nat) (v : A) : nat -> A :=
   fun x => if Nat.eqb x k then v else f x.
@@ -124,7 +126,7 @@ Definition start_running (t : timer) : timer := with_status t Running.
 Definition finish (t : timer) : timer :=
   match tm_status t with Running => with_status t Done | _ => t end.
 
-Definition set_timers (w : world) (l : list timer) : world := mkW (w_clock w) (w_st w) l (w_runner w).
+Definition set_timers (w : world) (l : list timer) : world := mkW (w_clock w) (w_st w) l (w_runner w) (w_tout w).
 
 (* ----------------------------------------------------------------- observations *)
 Inductive tres : Type := RFalse | RTrue | RMachine | RAttribute | ROut.   (* ROut: out of fuel *)
@@ -139,10 +141,12 @@ Inductive titem : Type :=
 | COnExc (cb : tcb) (m : tmodel) (err : nat) (t : nat)   (* on_exception; err = raising callback, 0 = MachineError *)
 | CEscape (cb : tcb) (m : tmodel) (t : nat)          (* threads: the exception of cb left the timer thread *)
 | CRes (m : tmodel) (e : tevent) (r : tres) (t : nat)    (* result of an event triggered by a callback *)
-| TUser (m : tmodel) (e : tevent) (t : nat).         (* the caller issues model.trigger(e) *)
+| TUser (m : tmodel) (e : tevent) (t : nat)          (* the caller issues model.trigger(e) *)
+| TSetTimeout (s : tstate) (v : nat) (t : nat).      (* the caller assigns machine.get_state(s).timeout = v *)
 
 (* ----------------------------------------------------------------- the timer bookkeeping of a state change *)
-(* Timeout.exit, before the callbacks: cancel the timer registered for m in s if it is alive *)
+(* Timeout.exit, before the callbacks: cancel the timer registered for m in s if it is alive — whatever
+   the state's timeout attribute says by now *)
 Definition cancel_slot (w : world) (s : tstate) (m : tmodel) : world :=
   match w_runner w s m with
   | Some i => set_timers w (upd_nth (w_timers w) i cancel_if_alive)
@@ -154,11 +158,11 @@ Definition cancel_slot (w : world) (s : tstate) (m : tmodel) : world :=
 Definition set_and_start (c : tcfg) (w : world) (m : tmodel) (d : tstate) : list titem * world :=
   let st' := upd (w_st w) m d in
   ([TExited m (w_st w m) (w_clock w); TEntered m d (w_clock w)],
-   if Nat.ltb 0 (timeout_of c d)
+   if Nat.ltb 0 (w_tout w d)                     (* self.timeout is read NOW; the timer keeps this period *)
    then mkW (w_clock w) st'
-            (w_timers w ++ [mkTimer d m (w_clock w + timeout_of c d) Pending])
-            (upd2 (w_runner w) d m (Some (length (w_timers w))))
-   else mkW (w_clock w) st' (w_timers w) (w_runner w)).
+            (w_timers w ++ [mkTimer d m (w_clock w + w_tout w d) Pending])
+            (upd2 (w_runner w) d m (Some (length (w_timers w)))) (w_tout w)
+   else mkW (w_clock w) st' (w_timers w) (w_runner w) (w_tout w)).
 
 (* the state change without callbacks (what the local theorems speak about) *)
 Definition switch (c : tcfg) (w : world) (m : tmodel) (d : tstate) : list titem * world :=
@@ -358,7 +362,7 @@ Fixpoint fire_due (c : tcfg) (w : world) (idxs : list nat) : list titem * world 
 (* the clock moves to the next instant; the timers that exist now and are due then run in creation order
    (timers created meanwhile have a later deadline: timeouts are positive) *)
 Definition tick (c : tcfg) (w : world) : list titem * world :=
-  let w1 := mkW (S (w_clock w)) (w_st w) (w_timers w) (w_runner w) in
+  let w1 := mkW (S (w_clock w)) (w_st w) (w_timers w) (w_runner w) (w_tout w) in
   fire_due c w1 (seq 0 (length (w_timers w1))).
 
 Fixpoint advance (c : tcfg) (w : world) (dt : nat) : list titem * world :=
@@ -368,13 +372,19 @@ Fixpoint advance (c : tcfg) (w : world) (dt : nat) : list titem * world :=
   end.
 
 (* ----------------------------------------------------------------- histories *)
-Inductive top : Type := HEvent (m : tmodel) (e : tevent) | HAdvance (dt : nat).
+Inductive top : Type :=
+| HEvent (m : tmodel) (e : tevent)
+| HAdvance (dt : nat)
+| HSetTimeout (s : tstate) (v : nat).     (* reconfiguration at run time: state.timeout = v (0 switches it off) *)
 
 (* one operation of the history: items, result of the call (events only), world *)
 Definition do_op (c : tcfg) (w : world) (o : top) : list titem * option tres * world :=
   match o with
   | HEvent m e => let '(its, w', r) := top_trig c w m e in (TUser m e (w_clock w) :: its, Some r, w')
   | HAdvance dt => let '(its, w') := advance c w dt in (its, None, w')
+  | HSetTimeout s v =>
+      ([TSetTimeout s v (w_clock w)], None,
+       mkW (w_clock w) (w_st w) (w_timers w) (w_runner w) (upd (w_tout w) s v))
   end.
 
 Fixpoint run (c : tcfg) (w : world) (h : list top) : list (list titem * option tres * world) :=
